@@ -52,14 +52,17 @@ TI_RE = re.compile(r"Restraint h Lambda= (\S+) dA/dLambda= (\S+)")
 
 
 class Runner:
-    def __init__(self, drv, p):
-        self.d, self.p = drv, p
+    def __init__(self, drv, p, off=0, rmode=0):
+        # off: absolute engine step at which the job starts and the restraint is defined (the specification's step is
+        # relative to that origin: "step - firstStep"); rmode 1: a resumed job's engine announces its first step
+        # before the configuration is parsed (as NAMD's firsttimestep does), rmode 0: the step comes from the state only
+        self.d, self.p, self.off, self.rmode, self.abs_it = drv, p, off, rmode, off
         self.cfg = config_text(p)
         self.ti = []
         self.start()
 
     def start(self, state=None):
-        self.d.cmd(op="new", natoms=2)
+        self.d.cmd(op="new", natoms=2, step0=(self.off if state is None else (self.abs_it if self.rmode else 0)))
         r = self.d.cmd(op="config", text=self.cfg)
         if r.get("op") == "died" or r.get("rc") != 0:
             raise vlib.MachineryError("C06 config rejected: %s" % r)
@@ -81,7 +84,8 @@ class Runner:
         for m in TI_RE.finditer(lg):
             self.ti.append((float(m.group(1)), float(m.group(2))))
         st = parse_state(self.d.cmd(op="save")["state"])
-        return {"it": r["it"], "E": r["E"], "F": r["cvs"]["z"]["fa"][0], "fat": r["fat"].get("0", [0, 0, 0])[2],
+        self.abs_it = r["it"]
+        return {"it": r["it"] - self.off, "E": r["E"], "F": r["cvs"]["z"]["fa"][0], "fat": r["fat"].get("0", [0, 0, 0])[2],
                 "cen": float(st["centers"][0]) if "centers" in st else None,
                 "k": float(st["forceConstant"][0]) if "forceConstant" in st else None,
                 "stage": int(st["stage"][0]) if "stage" in st else None,
@@ -130,13 +134,14 @@ def cmp_act(p, ks, a, got, prop):
 
 def replay_chunk(args):
     behs, seed = args
+    rng = random.Random(seed + 606)
     d = vlib.Drv()
     out = []
     try:
         for beh in behs:
             p, ks = beh["p"], beh["ks"]
             try:
-                run = Runner(d, p)
+                run = Runner(d, p, off=rng.choice([0, 0, 3, 7]), rmode=rng.choice([0, 1]))
             except vlib.MachineryError as e:
                 out.append(("machinery", str(e), beh))
                 continue
@@ -210,7 +215,7 @@ def record_traces(ctx, nruns, nsteps):
         for ri in range(nruns):
             p = TRACE_PARAMS[ri % len(TRACE_PARAMS)]
             ks = p["n"] * p["n"] * p["ns"]
-            r = Runner(d, p)
+            r = Runner(d, p, off=rng.choice([0, 0, 2, 5]), rmode=rng.choice([0, 1]))
             events.append({"a": "Reset", "p": p})
             x, runs, first = 0, 1, True
             for k in range(nsteps):
